@@ -21,6 +21,23 @@ _N = "self._molecules._pos.shape[0]"
 _SHAPE = T.Tuple(T.Int(lo=1), T.Int(lo=1), T.Int(lo=1))
 
 
+def _aligned_loader(interp, bound, extra_cols):
+    from pyvc import symex as _X
+    from pyvc.rotation import RotV
+    from pyvc.frames import FrameV
+    me = bound["self"]
+    n = me.attrs["_molecules"].attrs["_pos"].shape[0]
+    nm = V.fresh_name("aligned")
+    feats = list(me.attrs["_molecules"].attrs["_features"].cols) if me.attrs["_molecules"].attrs["_features"] is not None else []
+    cols = feats + ["score", "align-dz", "align-dy", "align-dx", "align-dzrot", "align-dyrot", "align-dxrot"] + list(extra_cols)
+    mol = _X.Obj(me.attrs["_molecules"].cls, {"_pos": fresh_array(nm + "_pos", 2, "real", shape=(n, 3)),
+                                              "_rotator": RotV.symbolic(nm + "_rot", None, so3=False, n=n),
+                                              "_features": FrameV.symbolic(nm + "_feat", n, cols)})
+    attrs = dict(me.attrs)
+    attrs.update(_molecules=mol, _output_shape=tuple(bound["shape"]))
+    return _X.Obj(me.cls, attrs)
+
+
 @contract("acryo.loader._base:LoaderBase._post_align", props=["C01", "C03"])
 class post_align:
     """Row i of the output belongs to molecule i and carries result i: position pos_i + scale * M_i s_i, orientation
@@ -33,20 +50,7 @@ class post_align:
     @staticmethod
     def result(interp, bound):
         """for callers (loader.align): a new loader of the same kind whose molecules are constrained by the clauses"""
-        from pyvc import symex as _X
-        from pyvc.rotation import RotV
-        from pyvc.frames import FrameV
-        me = bound["self"]
-        n = me.attrs["_molecules"].attrs["_pos"].shape[0]
-        nm = V.fresh_name("aligned")
-        feats = list(me.attrs["_molecules"].attrs["_features"].cols) if me.attrs["_molecules"].attrs["_features"] is not None else []
-        cols = feats + ["score", "align-dz", "align-dy", "align-dx", "align-dzrot", "align-dyrot", "align-dxrot"]
-        mol = _X.Obj(me.attrs["_molecules"].cls, {"_pos": fresh_array(nm + "_pos", 2, "real", shape=(n, 3)),
-                                                  "_rotator": RotV.symbolic(nm + "_rot", None, so3=False, n=n),
-                                                  "_features": FrameV.symbolic(nm + "_feat", n, cols)})
-        attrs = dict(me.attrs)
-        attrs.update(_molecules=mol, _output_shape=tuple(bound["shape"]))
-        return _X.Obj(me.cls, attrs)
+        return _aligned_loader(interp, bound, [])
     call_ensures = ["count", "position", "orientation", "score_feature", "output_shape"]
     native_call = "args['self']._post_align(args['results'], args['shape'])"
     native = {
@@ -87,6 +91,8 @@ class post_align_multi:
     requires = ["forall(lambda i: results[i].label >= 0, (0, %s))" % _N]
     helpers = _H
     imports = NATIVE_IMPORTS
+    result = staticmethod(lambda interp, bound: _aligned_loader(interp, bound, [bound["label_name"]]))
+    call_ensures = ["count", "position", "orientation", "score_feature", "label_feature"]
     native_call = "args['self']._post_align_multi_templates(args['results'], args['shape'], args['remainder'], args['label_name'])"
     native = {
         "count": "len(result.molecules) == len(self.molecules)",
@@ -168,6 +174,71 @@ from contracts.C10_scheduling import TModelFactory, _MS
 _BA = "BaseAlignmentModel.align"
 
 
+def _replay_loader_align(ob_name, meta, model):
+    """public-entry-point replay of loader.align: a probe model (subclass of the case's model class) records what
+    every task receives and returns a result that identifies the task; the clauses are evaluated on the real output"""
+    import re
+    m = re.search(r"alignment_model=(\w+)", ob_name)
+    kind = m.group(1) if m else "ZNCCAlignment"
+    tuple_ms = "max_shifts=Tuple" in ob_name
+    return f"""
+import numpy as np, threading
+from fractions import Fraction
+from scipy.spatial.transform import Rotation
+from acryo import SubtomogramLoader, Molecules
+import acryo.alignment as _alm
+from acryo.alignment._base import AlignmentResult
+kind = {kind!r}
+def num(k, d):
+    v = model.get(k, d)
+    try:
+        return float(Fraction(str(v)))
+    except Exception:
+        return float(d)
+scale = min(max(num("self_scale", 1.0), 0.25), 4.0)
+if {tuple_ms!r}:
+    ms = tuple(min(num("max_shifts_%d" % a, 1.0 + a), 6.0) * 1.0 for a in range(3))
+    if len(set(ms)) < 3:
+        ms = (ms[0], ms[0] + 1.5, ms[0] + 0.5)            # per-axis ranges are told apart
+else:
+    ms = min(num("max_shifts", 1.5), 6.0)
+seen = []; lock = threading.Lock()
+class Probe(getattr(_alm, kind)):
+    def align(self, img, max_shifts, quaternion=None, pos=None, backend=None):
+        z = float(np.asarray(img).mean())
+        i = int(round(pos[1] * 1.0)) % 100                      # the task's molecule, from its y position (in pixels)
+        shift = np.array([0.25 * i, -0.5 * i, 0.125 * i], np.float32)
+        with lock:
+            seen.append((i, tuple(float(m) for m in max_shifts), np.array(pos, float), np.array(quaternion, float), z))
+        return AlignmentResult(0, shift, np.array([0, 0, 0, 1], np.float32), 0.01 * i)
+zz = np.indices((40, 40, 40))[0].astype(np.float32)
+n = 4
+pos_px = np.array([[10 + 5 * i, i, 20] for i in range(n)], float) + np.array([0, 14, 0])
+idx = [int(round(p[1])) for p in pos_px]
+mole = Molecules(pos_px * scale, Rotation.random(n, random_state=3), features={{"f0": np.arange(n) * 2.5}})
+ld = SubtomogramLoader(zz, mole, order=1, scale=scale)
+before = mole.pos.copy()
+out = ld.align(np.ones((5, 5, 5), np.float32), max_shifts=ms, alignment_model=Probe)
+want_ms = tuple(float(m) / scale for m in (ms if isinstance(ms, tuple) else (ms,) * 3))
+ok = len(out.molecules) == n and len(seen) == n
+by = {{s[0]: s for s in seen}}
+for k, i in enumerate(idx):
+    s = by.get(i)
+    good = s is not None and np.allclose(s[1], want_ms, atol=1e-6) and np.allclose(s[2], pos_px[k], atol=1e-4) \
+        and np.allclose(s[3], mole.quaternion()[k], atol=1e-5) and abs(s[4] - pos_px[k, 0]) < 0.75
+    sh = np.array([0.25 * i, -0.5 * i, 0.125 * i])
+    moved = np.allclose(out.molecules.pos[k], before[k] + scale * mole.rotator.as_matrix()[k] @ sh, atol=1e-3) \
+        and abs(float(out.molecules.features["score"][k]) - 0.01 * i) < 1e-5 \
+        and np.allclose(out.molecules.rotator.as_matrix()[k], mole.rotator.as_matrix()[k], atol=1e-5)
+    print("molecule", k, ": task got range", None if s is None else np.round(s[1], 3), "(requested", np.round(want_ms, 3), "px)",
+          "sub-volume/pose of molecule", k if good else "?", "| written back to row", k if moved else "?")
+    ok = ok and good and moved
+ok = ok and np.array_equal(ld.molecules.pos, before)
+print("clause holds natively (task i = molecule i with the requested range, result i written to row i):", ok)
+print("CONFIRMED" if not ok else "NOT-CONFIRMED"); sys.exit(1 if not ok else 0)
+"""
+
+
 @contract("acryo.loader._base:LoaderBase.align", props=["C01", "C03"])
 class loader_align:
     """single-template alignment, any number of molecules and all four models: task i aligns sub-volume i (box of the
@@ -177,6 +248,7 @@ class loader_align:
     params = dict(self=TLoader(TMolecules(features=["f0"], min_n=1), order=1), template=T.Arr(3, "real"), mask=T.Const(None),
                   max_shifts=T.OneOf(T.Real(lo=0), _MS), alignment_model=TModelFactory(multi_cases=(False,)), backend=T.Const(None))
     helpers = dict(_H, BA=_BA, ms=lambda m, a: m[a] if isinstance(m, tuple) else m)
+    replay = staticmethod(_replay_loader_align)
     may_raise = {"SubvolumeOutOfBoundError": "True"}
     ensures = {
         "one_result_per_molecule": "result._molecules._pos.shape[0] == %s" % _N,
@@ -192,6 +264,103 @@ class loader_align:
         # no rotation is searched by these models: the orientation is kept
         "orientation_kept_without_rotation_search":
             "forall(lambda i: mateq(M(result._molecules._rotator, i), M(self._molecules._rotator, i)), (0, %s))" % _N,
+        "score_of_task_i":
+            "forall(lambda i: result._molecules._features['score'].arr[i] == called_at(BA, i).score, (0, %s))" % _N,
+        "frame": "writes_to(self) == 0 and writes_to(self._molecules) == 0 and result is not self",
+    }
+
+
+
+# ---------------------------------------------------------------------------
+# the multi-template / rotation-search entry point (C06 at loader level): candidates are K rotations x T templates,
+# flat index k*T + j; molecule i gets the template j and the rotation k of the best candidate of task i
+_REPLAY_MULTI = '''
+import numpy as np
+from scipy import ndimage as ndi
+from scipy.spatial.transform import Rotation
+from acryo import SubtomogramLoader, Molecules
+from acryo.alignment import ZNCCAlignment
+from acryo._utils import compose_matrices
+rng = np.random.default_rng(5)
+box = (13, 13, 13)
+zz, yy, xx = np.indices(box)
+def blob(c, s):
+    return np.exp(-((zz - c[0]) ** 2 + (yy - c[1]) ** 2 + (xx - c[2]) ** 2) / (2 * s * s))
+ok = True
+_r = lambda *deg: [Rotation.from_euler("z", d, degrees=True) for d in deg]
+for T_, rotations in ((3, _r(0, 25)), (3, None), (2, _r(0, 20, -20)), (3, _r(0, 15, -15, 30))):
+    templates = []
+    for t in range(T_):
+        img = np.zeros(box)
+        for _ in range(4):
+            img += rng.uniform(0.5, 1.5) * blob(rng.uniform(3, 9, size=3), rng.uniform(1.0, 1.6))
+        templates.append(img.astype(np.float32))
+    model = ZNCCAlignment.with_params(rotations=rotations) if rotations is not None else ZNCCAlignment
+    K_ = ZNCCAlignment(templates, rotations=rotations)._n_rotations
+    quats = ZNCCAlignment(templates, rotations=rotations).quaternions
+    # tomogram: molecule m is template (m % T) in the orientation of searched rotation (m % K)
+    n = 6
+    tomo = np.zeros((30, 30 * n, 30), np.float32)
+    pos = np.array([[15, 15 + 30 * m, 15] for m in range(n)], float)
+    for m in range(n):
+        rot = Rotation.from_quat(quats[m % K_])
+        mtx = compose_matrices(np.array(box) / 2 - 0.5, [rot.inv()])[0]
+        sub = ndi.affine_transform(templates[m % T_], mtx, order=3, mode="constant", cval=0.0)
+        tomo[9:22, 9 + 30 * m:22 + 30 * m, 9:22] = sub
+    ld = SubtomogramLoader(tomo, Molecules(pos), order=1, scale=1.0)
+    out = ld.align_multi_templates(templates, max_shifts=(1.0, 1.0, 1.0), alignment_model=model)
+    labels = [int(v) for v in out.molecules.features["labels"]]
+    want = [m % T_ for m in range(n)]
+    rot_ok = all(np.allclose(out.molecules.rotator.as_matrix()[m], Rotation.from_quat(quats[m % K_]).as_matrix(), atol=1e-4)
+                 for m in range(n))
+    print("T=%d templates, K=%d rotations: labels %s, templates pasted %s; orientation of molecule m is searched rotation m %% K: %s"
+          % (T_, K_, labels, want, rot_ok))
+    ok = ok and labels == want and rot_ok
+print("clause holds natively (label / rotation of molecule i = template / rotation of its best candidate):", ok)
+print("CONFIRMED" if not ok else "NOT-CONFIRMED"); sys.exit(1 if not ok else 0)
+'''
+
+_TEMPLATES = T.OneOf(T.List(T.Arr(3, "real"), T.Arr(3, "real")), T.List(T.Arr(3, "real"), T.Arr(3, "real"), T.Arr(3, "real")))
+
+
+def quat_of(model, k):
+    q = model.attrs["quaternions"]
+    return tuple(q[k, c] for c in range(4))
+
+
+@contract("acryo.loader._base:LoaderBase.align_multi_templates", props=["C06", "C01", "C03"])
+class loader_align_multi:
+    """T templates (2 or 3) and any number K of searched rotations, all four models: task i aligns sub-volume i; the
+    label written to row i is the template index j = c % T of task i's best candidate c, the orientation of row i is
+    the molecule's composed with searched rotation k = c // T, position / score as for `align`"""
+    params = dict(self=TLoader(TMolecules(features=["f0"], min_n=1), order=1), templates=_TEMPLATES, mask=T.Const(None),
+                  max_shifts=_MS, alignment_model=TModelFactory(multi_cases=(True,)), backend=T.Const(None),
+                  label_name=T.Const("labels"))
+    requires = ["all(templates[j].shape[a] == templates[0].shape[a] for j in range(len(templates)) for a in range(3))"]
+    helpers = dict(_H, BA=_BA, quat_of=quat_of)
+    # the decoding clauses (label, rotation) are C06's; C01 / C03 take the pose update and the row pairing
+    only = {"C01": ["one_result_per_molecule", "task_i_searches_the_requested_range", "molecule_i_moved_by_shift_i",
+                    "score_of_task_i", "frame"],
+            "C03": ["one_result_per_molecule", "task_i_is_molecule_i", "molecule_i_moved_by_shift_i", "score_of_task_i",
+                    "label_is_the_template_of_the_best_candidate"]}
+    replay = staticmethod(lambda ob, meta, model: _REPLAY_MULTI)
+    may_raise = {"SubvolumeOutOfBoundError": "True"}
+    ensures = {
+        "one_result_per_molecule": "result._molecules._pos.shape[0] == %s" % _N,
+        "label_is_the_template_of_the_best_candidate":
+            "forall(lambda i: result._molecules._features['labels'].arr[i] == called_at(BA, i).label %% len(templates), (0, %s))" % _N,
+        "rotation_is_the_rotation_of_the_best_candidate":
+            "forall(lambda i: mateq(M(result._molecules._rotator, i), matmul3(M(self._molecules._rotator, i), "
+            "qmat(quat_of(called_args_at(BA, i)['self'], called_at(BA, i).label // len(templates))))), (0, %s))" % _N,
+        "task_i_is_molecule_i":
+            "forall(lambda i: arr_eq(called_args_at(BA, i)['img'], called('construct_loading_tasks')._arrays[i]) and "
+            "all(called_args_at(BA, i)['pos'][a] == self._molecules._pos[i, a] / self._scale for a in range(3)), (0, %s))" % _N,
+        "task_i_searches_the_requested_range":
+            "forall(lambda i: all(called_args_at(BA, i)['max_shifts'][a] == max_shifts[a] / self._scale for a in range(3)), (0, %s))" % _N,
+        "molecule_i_moved_by_shift_i":
+            "forall(lambda i: all(result._molecules._pos[i, a] == self._molecules._pos[i, a] + self._scale * "
+            "matvec(M(self._molecules._rotator, i), (called_at(BA, i).shift[0], called_at(BA, i).shift[1], called_at(BA, i).shift[2]))[a] "
+            "for a in range(3)), (0, %s))" % _N,
         "score_of_task_i":
             "forall(lambda i: result._molecules._features['score'].arr[i] == called_at(BA, i).score, (0, %s))" % _N,
         "frame": "writes_to(self) == 0 and writes_to(self._molecules) == 0 and result is not self",
